@@ -592,6 +592,77 @@ static void test_rec(void)
 	raid_init();
 }
 
+
+/* ---- recovery through every generator profile raid_init() can select ----
+ * raid_rec* rebuild lost blocks with raid_delta_gen(), which calls the SELECTED generators with
+ * the unused parity buffers aliased: the generators must therefore write the parities in
+ * increasing order.  The profile of this CPU is what test_rec() exercises; here the function
+ * pointers are set as raid_init() would on a CPU without SSE2 / with SSE2 only / with SSSE3 /
+ * with AVX2, and every small erasure pattern is recovered through the public raid_data(). */
+struct genprof { const char *name; const char *g[6]; const char *gz; int need; };
+static struct genprof genprofs[] = {
+	{ "portable", { "gen1_int64", "gen2_int64", "gen3_int8", "gen4_int8", "gen5_int8", "gen6_int8" }, "genz_int64", 0 },
+	{ "portable32", { "gen1_int32", "gen2_int32", "gen3_int8", "gen4_int8", "gen5_int8", "gen6_int8" }, "genz_int32", 0 },
+	{ "sse2", { "gen1_sse2", "gen2_sse2", "gen3_int8", "gen4_int8", "gen5_int8", "gen6_int8" }, "genz_sse2", 1 },
+	{ "ssse3", { "gen1_sse2", "gen2_sse2ext", "gen3_ssse3ext", "gen4_ssse3ext", "gen5_ssse3ext", "gen6_ssse3ext" }, "genz_sse2ext", 2 },
+	{ "ssse3-32", { "gen1_sse2", "gen2_sse2", "gen3_ssse3", "gen4_ssse3", "gen5_ssse3", "gen6_ssse3" }, "genz_sse2", 2 },
+	{ "avx2", { "gen1_avx2", "gen2_avx2", "gen3_avx2ext", "gen4_avx2ext", "gen5_avx2ext", "gen6_avx2ext" }, "genz_avx2ext", 3 },
+	{ 0, { 0, 0, 0, 0, 0, 0 }, 0, 0 }
+};
+
+static gen_f *find_gen(const char *name)
+{
+	struct genvar *gv;
+	for (gv = genvars; gv->name; ++gv) if (!strcmp(gv->name, name)) return gv->f;
+	return 0;
+}
+
+static void test_rec_genprofiles(void)
+{
+	struct genprof *gp;
+	for (gp = genprofs; gp->name; ++gp) {
+		struct fam fm = { 0, 0, 0, 0 };
+		char nm[64];
+		int i, mode, ok = 1;
+		gen_f *g[6], *gz;
+		snprintf(nm, sizeof(nm), "recgen.%s", gp->name);
+		fm.name = nm;
+		if (!cpu_ok(gp->need)) { printf("SKIP family=%s reason=cpu\n", nm); continue; }
+		for (i = 0; i < 6; ++i) { g[i] = find_gen(gp->g[i]); if (!g[i]) ok = 0; }
+		gz = find_gen(gp->gz); if (!gz) ok = 0;
+		if (!ok) { printf("SKIP family=%s reason=variant-not-built\n", nm); continue; }
+		raid_init();
+		for (i = 0; i < 6; ++i) raid_gen_ptr[i] = g[i];
+		raid_gen3_ptr = g[2];
+		raid_genz_ptr = gz;
+		for (mode = 0; mode < 2; ++mode) {
+			int npmax = mode ? 3 : 6;
+			int nd, np, nr;
+			for (nd = 1; nd <= (thorough ? 5 : 3); ++nd)
+				for (np = 1; np <= npmax; ++np)
+					for (nr = 1; nr <= np && nr <= nd; ++nr) {
+						int id[6];
+						combination_first(nr, nd, id);
+						do {
+							int ip[6];
+							combination_first(nr, np, ip);
+							do {
+								int gb[6], ng = 0, p, q;
+								for (p = 0; p < np; ++p) {
+									int used = 0;
+									for (q = 0; q < nr; ++q) if (ip[q] == p) used = 1;
+									if (!used) gb[ng++] = p;
+								}
+								run_rec_case(&fm, gp->name, mode, 1, nd, np, 192, nr, id, ip, ng, gb);
+							} while (combination_next(nr, np, ip));
+						} while (combination_next(nr, nd, id));
+					}
+		}
+		fam_report(&fm);
+	}
+	raid_init();
+}
+
 /* ---- raid_check / raid_scan ---- */
 static void test_check(void)
 {
@@ -730,6 +801,6 @@ int main(int argc, char **argv)
 #endif
 	if (!strcmp(what, "tables") || !strcmp(what, "all")) test_tables();
 	if (!strcmp(what, "gen") || !strcmp(what, "all")) test_gen();
-	if (!strcmp(what, "rec") || !strcmp(what, "all")) { test_rec(); test_check(); test_invert(); }
+	if (!strcmp(what, "rec") || !strcmp(what, "all")) { test_rec(); test_rec_genprofiles(); test_check(); test_invert(); }
 	return 0;
 }
